@@ -149,13 +149,16 @@ PROPS["C12"] = dict(
     modules=["Sth.Props.C12"],
     theorems=["Sth.Rate.C12_registered_is_current", "Sth.Rate.C12_release", "Sth.Rate.C12_signal", "Sth.Rate.C12_enabled",
               "Sth.Rate.C12_lost_wakeup_witness", "Sth.Rate.C12_repaired_on_witness"],
-    runs=[dict(engine="sched", quick=200, thorough=20000, extra=["-profile", "c12"], nontrivial=["writer-waited"])],
+    runs=[dict(engine="sched", quick=200, thorough=20000, extra=["-profile", "c12"], nontrivial=["writer-waited", "rate-model-waited"])],
     shrink_budget=0,
     rule="1-2 writer threads (Put/Remove) on a Started store with burst rate 0 and a tiny measured flush rate (verif setter), so that "
          "flushTick takes the waiting path deterministically, plus an explicit Flush caller playing the periodic flush; scheduling points "
          "inside flushTick (measured, decided, registered, waiting, released) and Flush (stamped, nowork/checked, committed, notified); "
          "the store's own flusher goroutine runs freely and its points are logged. Violation = a writer still parked on the notice "
-         "after a flush completed after its wait began. Non-trivial = distinct schedule in which a writer entered the waiting path.",
+         "after a flush completed after its wait began. Non-trivial = distinct schedule in which a writer entered the waiting path. Schedules over named points only are replayed on the back-pressure model Sth/Model/Rate.lean (every park of a writer or "
+         "flusher is one model step; `inRate > flushRate` and `OutstandingWork() > 0` are taken from the branch the code took): a writer "
+         "is released exactly when the model's wait step is enabled, and the writers parked for good at the end are those whose notice "
+         "the model has not closed.",
     assumptions=["weak fairness of the flusher goroutine (it runs when signalled)", "flushes succeed"],
 )
 
